@@ -331,8 +331,10 @@ class HeaderRxHarness(Harness):
                 self.c["readv_after_disable"].eq(readv & was_down & (n_lcrd == 3)),
                 self.c["readv_after_reset"].eq(readv & was_reset & (n_lcrd == 3)),
             ]
-            for n in mid:
-                m.d.comb += self.c[f"disable_mid_{n}"].eq(readv & mid[n] & (n_lcrd == 3))
+            # crash-point twins: the link goes down (not a USB reset) while the second word of command n is on the wire
+            for n, code in (("lgood", ss_link.LGOOD), ("lcrd", ss_link.LCRD), ("lbad", ss_link.LBAD),
+                            ("lrty", ss_link.LRTY), ("keepalive", ss_link.LUP)):
+                m.d.comb += self.c[f"disable_mid_{n}"].eq(down_in_second & (cur_cmd == code))
 
         # ------------------------------------------------ covers
         ign_seen = Signal(name="ign_seen")
